@@ -204,6 +204,31 @@ def find(ctx, c, img, h):
     return sf.find_sources_in_image(fn, **kw)
 
 
+CASE_TIMEOUT = 90   # seconds of wall time for one find_sources_in_image run on a <= 256x256 image (normal: 0.05 - 3 s)
+
+
+class CaseTimeout(Exception):
+    pass
+
+
+def with_timeout(seconds, fn, *args):
+    """run fn(*args); raise CaseTimeout if it has not returned after `seconds` (SIGALRM; main thread only)"""
+    import signal
+
+    def onalarm(signum, frame):
+        raise CaseTimeout(f"no result after {seconds} s")
+    try:
+        old = signal.signal(signal.SIGALRM, onalarm)
+    except ValueError:      # not in the main thread: run unguarded
+        return fn(*args)
+    signal.alarm(int(seconds))
+    try:
+        return fn(*args)
+    finally:
+        signal.alarm(0)
+        signal.signal(signal.SIGALRM, old)
+
+
 def symmetrize(img, xy):
     """average the image with its point reflection about the source centre (a pixel corner or centre): the Gaussian is
     point symmetric, so this changes it by rounding errors only, but makes mirror pixels BIT-EQUAL (what a renderer
@@ -323,8 +348,8 @@ def loop_case(ctx, c, record=True):
     if c.get('pedestal'):
         data = data + float(c['pedestal'])
     try:
-        out = find(ctx, c, data, h)
-    except Exception as e:  # the finder must not raise on a valid image
+        out = with_timeout(CASE_TIMEOUT, find, ctx, c, data, h)
+    except Exception as e:  # the finder must not raise (or stall) on a valid image
         if record:
             ctx.case(c)
             ctx.fail('spec', dict(c, pretty=pretty(c)), f"find_sources_in_image raised {type(e).__name__}: {e}",
@@ -474,7 +499,7 @@ def option_cases(rng):
         c = gen_case(rng, True)
         c.pop('symmetric', None)
         c.update(proj=proj, n=[128, 128], crpix=[64.0 + k, 60.0], xy=[rng.uniform(40, 90), rng.uniform(40, 90)],
-                 opts='fe', pedestal=abs(c['peak']) * rng.choice([0.3, -0.2, 1.0]), docov=(k % 2 == 1))
+                 opts='fe', pedestal=abs(c['peak']) * rng.choice([0.3, -0.2, 1.0]), docov=False)
         s = c['scale']
         c['beam'] = [3.2 * s, 3.2 * s * rng.uniform(0.7, 1.0), rng.uniform(-90, 90)]
         c['a'] = c['beam'][0] * 3600 * rng.uniform(1.0, 2.0)
